@@ -68,6 +68,11 @@ for norm in (L1, L2, LMAX):
         quick.append(job("c16.norm", secs=60, qto=QTO, allow=("inexact",), n=1, p=2, norm=norm, scale=scale, B=8))
         quick.append(job("c16.norm", secs=60, qto=QTO, allow=("inexact",), n=2, p=1, norm=norm, scale=scale, B=8))
 
+# columns far from the origin (integers shifted by 2^27 / 2^40): postconditions recomputed from the outputs
+for method in (STD, MINMAX, MAXABS):
+    quick.append(job("c16.far_from_origin", secs=60, qto=QTO, allow=("inexact",), n=3, method=method, offs=27))
+    quick.append(job("c16.far_from_origin", secs=90, qto=QTO, allow=("inexact",), n=4, method=method, offs=40))
+
 # recorded defect role: an all-zero row is divided by its zero norm (NaN) -- "keeps all output finite" fails
 defects = [job("c16.norm", secs=30, n=2, p=2, norm=norm, zero=0) for norm in (L1, L2, LMAX)]
 
